@@ -8,4 +8,4 @@ exec flock build/.build.lock sh -c '
   cd coq
   if [ ! -f Makefile ] || [ _CoqProject -nt Makefile ]; then coq_makefile -f _CoqProject -o Makefile || exit 2; fi
   timeout 1700 make -k -j8 COQC="timeout 600 coqc" "$@" 2>&1 | tail -60
-'
+' sh "$@"
